@@ -740,6 +740,14 @@ func scanPanicObligations(w *World, r *Report, rule string, cone map[*types.Func
 					}
 				}
 			}
+			// the entry of a function that was inlined here (it exists no more): same expression
+			if rev == nil {
+				for i := range reviewed {
+					if rev == nil && vanished[reviewed[i].Func] && (reviewed[i].Expr == es || alphaNorm(reviewed[i].Expr, nil) == alphaNorm(es, nil)) {
+						rev = &reviewed[i]
+					}
+				}
+			}
 			if rev == nil {
 				if e2, ok := alphaPairs[es]; ok {
 					rev = e2
